@@ -241,15 +241,20 @@ const alnum = "ABCDEFGHIJKLMNOPQRSTUVWXYZ0123456789"
 
 func fcgiRun() {
 	parallel(0, func(w int) func([]byte) {
-		ln, err := net.Listen("tcp", "127.0.0.1:0")
-		if err != nil {
-			panic(err)
-		}
 		return func(line []byte) {
 			var c fcgiCase
 			if err := json.Unmarshal(line, &c); err != nil {
 				vh.Emit(map[string]interface{}{"_bad_case": err.Error()})
 				return
+			}
+			var ln net.Listener
+			if c.API != "do" { // one listener per case: a stray accept can never serve another case
+				var err error
+				if ln, err = net.Listen("tcp", "127.0.0.1:0"); err != nil {
+					vh.Emit(vh.Result{ID: c.ID, Sig: "machinery", Detail: "listen: " + err.Error()})
+					return
+				}
+				defer ln.Close()
 			}
 			switch c.Kind {
 			case "req":
@@ -363,13 +368,7 @@ func fcgiReq(c *fcgiCase, ln net.Listener) vh.Result {
 		return res
 	}
 	if pan != "" {
-		if c.API != "do" { // unblock the accept goroutine
-			if x, err := net.Dial("tcp", ln.Addr().String()); err == nil {
-				x.Close()
-			}
-		}
-		<-done
-		return fail("panic", pan)
+		return fail("panic", pan) // the application goroutine ends on its read deadline / listener close
 	}
 	if !fin {
 		return fail("hang", "client did not finish within 20s")
@@ -461,7 +460,15 @@ func fcgiReq(c *fcgiCase, ln net.Listener) vh.Result {
 				all = append(all, len(rc.Content))
 			}
 		}
-		if c.ExpM != nil && fmt.Sprint(all) != fmt.Sprint(c.ExpM) {
+		// the client walks a Go map: the model's record boundaries apply when the pairs went out in
+		// the order of the case
+		inOrder := len(got) == len(c.Pairs)
+		for i := range got {
+			if inOrder && (len(got[i][0]) != c.Pairs[i].NL || len(got[i][1]) != c.Pairs[i].VL || got[i][0][0] != alnum[i%len(alnum)]) {
+				inOrder = false
+			}
+		}
+		if inOrder && c.ExpM != nil && fmt.Sprint(all) != fmt.Sprint(c.ExpM) {
 			res.Drift = fmt.Sprintf("PARAMS record lengths %v, mechanism model %v", all, c.ExpM)
 		}
 	} else {
@@ -550,6 +557,17 @@ func fcgiResp(c *fcgiCase, ln net.Listener) vh.Result {
 		}
 	}
 	reply = append(reply, cur)
+	// what the response would be if every stream were taken for STDOUT (the shape of finding F-C55-2)
+	var allcat []byte
+	hasErr := false
+	for i, s := range c.Script {
+		if s.T != "end" {
+			allcat = append(allcat, contents[i]...)
+		}
+		if s.T == "err" && len(contents[i]) > 0 {
+			hasErr = true
+		}
+	}
 	var want []byte
 	for _, k := range c.Keep {
 		if k < 1 || k > len(contents) {
@@ -614,7 +632,7 @@ func fcgiResp(c *fcgiCase, ln net.Listener) vh.Result {
 		}
 		if !bytes.Equal(got, want) {
 			kind := "stdout-mismatch"
-			if len(got) > len(want) && bytes.Contains(got, []byte("X-Injected")) {
+			if hasErr && bytes.Equal(got, allcat) {
 				kind = "stderr-in-response"
 			}
 			return fail(kind, fmt.Sprintf("response stream is %d bytes %s, STDOUT contents are %d bytes %s", len(got), head(got), len(want), head(want)))
@@ -627,19 +645,25 @@ func fcgiResp(c *fcgiCase, ln net.Listener) vh.Result {
 		res.OK = true // CGI header incomplete: nothing decisive to say at this level
 		return res
 	}
+	// with STDERR content in the script: does the reply look like "all streams concatenated"?
+	mixed := hasErr && (derr != nil || (len(got) > 0 && bytes.HasSuffix(allcat, got)) || (len(got) == 0 && rsp != nil))
 	if derr != nil {
-		return fail("client-error", fmt.Sprintf("RoundTrip failed: %v", derr))
+		kind := "client-error"
+		if mixed {
+			kind = "stderr-in-response"
+		}
+		return fail(kind, fmt.Sprintf("RoundTrip failed: %v", derr))
 	}
 	if rsp.StatusCode != 201 || rsp.Header.Get("X-Verif") != "yes" || rsp.Header.Get("X-Injected") != "" {
 		kind := "head-mismatch"
-		if rsp.StatusCode == 500 || rsp.Header.Get("X-Injected") != "" {
+		if mixed {
 			kind = "stderr-in-response"
 		}
 		return fail(kind, fmt.Sprintf("status %d, X-Verif=%q, X-Injected=%q; STDOUT says 201 / yes", rsp.StatusCode, rsp.Header.Get("X-Verif"), rsp.Header.Get("X-Injected")))
 	}
 	if !bytes.Equal(got, want[len(cgiHead):]) {
 		kind := "stdout-mismatch"
-		if bytes.Contains(got, []byte("X-Injected")) {
+		if mixed {
 			kind = "stderr-in-response"
 		}
 		return fail(kind, fmt.Sprintf("body is %d bytes %s, STDOUT body is %d bytes", len(got), head(got), len(want)-len(cgiHead)))
